@@ -6,8 +6,8 @@
    completed by the driver, once the process has exited:
      Log(n = number of report blocks of tfel-check.log, distinct = 1 iff they are the blocks of n different .check files)
      Exit(rc = exit status of tfel-check, nfail = number of .check files that must fail)
-   The body of a task (the check itself and the append of its report) and the computation of the status are not logged:
-   silent steps.  Which task is which .check file is not observable: only the number of failing files matters
+   The body of a task (the check itself and the append of its report) is not logged: it is composed with the Idle event of
+   its worker; the computation of the status is a silent step.  Which task is which .check file is not observable: only the number of failing files matters
    (TraceFailing), as in the Verdict property. *)
 EXTENDS TfelCheckSystem, TraceIO
 TraceFailing == LET e == Tr[Len(Tr)] IN IF e.e = "Exit" /\ e.nfail > 0 THEN {1} ELSE {}
@@ -29,14 +29,15 @@ TDequeue == /\ IsEvent("Dequeue")
             /\ cvw' = {}
             /\ wpc' = [wpc EXCEPT ![WK] = "run"]
             /\ UNCHANGED <<stop, cpc, csub, cwaits, waitIdx, waitSnap, ran, fut, joined, spurious, log, exit>>
-\* the body of the task: silent
-SRun == (\E w \in Workers : RunCheck(w)) /\ UNCHANGED l
+\* the body of the task (the check and the append of its report) is not logged: it is composed with the Idle event that follows it
+\* (one logged step of the implementation = the two steps RunCheck ; WFin of the specification)
 TIdle == /\ IsEvent("Idle")
-         /\ WK \in Workers /\ wpc[WK] = "fin" /\ status[WK] = "WORKING"
+         /\ WK \in Workers /\ wpc[WK] = "run" /\ status[WK] = "WORKING"
+         /\ P!Execute(wtask[WK]) /\ log' = Append(log, wtask[WK])
          /\ P!MarkIdle(WK)
          /\ cvw' = {}
          /\ wpc' = [wpc EXCEPT ![WK] = "top"]
-         /\ UNCHANGED <<queue, stop, wtask, cpc, csub, cwaits, waitIdx, waitSnap, ran, fut, joined, spurious, log, exit>>
+         /\ UNCHANGED <<queue, stop, wtask, cpc, csub, cwaits, waitIdx, waitSnap, joined, spurious, exit>>
 TWaitEnter == /\ IsEvent("WaitEnter")
               /\ cpc[1] = "add" /\ csub[1] = NChecks /\ cwaits[1] = 0
               /\ cwaits' = [cwaits EXCEPT ![1] = @ + 1]
@@ -74,7 +75,7 @@ TLog == /\ IsEvent("Log") /\ exit # "running"
 TExit == /\ IsEvent("Exit") /\ exit # "running"
          /\ (Ev.rc = 0) = (exit = "success")
          /\ UNCHANGED vars
-TraceNext == TEnqueue \/ TDequeue \/ SRun \/ TIdle \/ TWaitEnter \/ TWaitQueueEmpty \/ TWaitReturn \/ SStatus
+TraceNext == TEnqueue \/ TDequeue \/ TIdle \/ TWaitEnter \/ TWaitQueueEmpty \/ TWaitReturn \/ SStatus
              \/ TStop \/ TWorkerExit \/ TJoined \/ TLog \/ TExit
 TraceSpec == TraceInit /\ [][TraceNext]_tvars
 =============================================================================
